@@ -18,7 +18,7 @@ from .. import rustbridge as rb
 from pce500.memory import PCE500Memory
 
 PALETTE = [0x000000, 0x001FFF, 0x002000, 0x00200F, 0x002010, 0x03FFFF, 0x040000, 0x041FFF, 0x042000, 0x04FFFF, 0x050000, 0x05000E, 0x05000F,
-           0x07FFFF, 0x080000, 0x087FFF, 0x088000, 0x0B7FFF, 0x0B8000, 0x0BFFFF, 0x0C0000, 0x0FFEFF, 0x0FFF00, 0x0FFFFA,
+           0x07FFFF, 0x080000, 0x08000F, 0x080010, 0x087FFF, 0x088000, 0x0B7FFF, 0x0B8000, 0x0BFFFF, 0x0C0000, 0x0FFEFF, 0x0FFF00, 0x0FFFFA,
            0x0FFFFF, 0x100000, 0x1000EC, 0x1000EF, 0x1000F3, 0x1000FB, 0x1000FF]
 ALIASES = [0x1000000, 0xFF000000]
 VALUES = [0x00, 0xA5, 0x5AA5C3]
@@ -63,6 +63,10 @@ def configs(thorough: bool) -> List[Dict[str, Any]]:
             und["underlay"] = True      # the external bytes under the overlays were written before the overlays were installed
             out.append(und)
         if card and not rom and not ovl and not mirror and not ro:
+            rem = dict(cfg)
+            rem["card_removed"] = True       # the card is loaded and then taken out: the slot must behave as absent
+            out.append(rem)
+        if card and not rom and not ovl and not mirror and not ro:
             roc = dict(cfg)
             roc["card_writable"] = False       # read-only card (Python only: the Rust image has no such switch)
             out.append(roc)
@@ -94,6 +98,8 @@ def make_py(cfg) -> PCE500Memory:
             if card not in _CARD_CACHE:
                 _CARD_CACHE[card] = bytes(((i & 0xFF) ^ 0x5A) for i in range(card))
             m.load_memory_card(_CARD_CACHE[card], card, writable=cfg.get("card_writable", True))
+            if cfg.get("card_removed"):
+                m.set_memory_card_present(False)
     if cfg.get("underlay"):
         for start, size in list(cfg.get("ram_overlays", [])) + list(cfg.get("rom_overlays", [])):
             for k in range(size):
@@ -121,6 +127,8 @@ def rs_cfg(cfg):
     c: Dict[str, Any] = {"mirror": bool(cfg.get("mirror"))}
     if cfg.get("card") is not None:
         c["card"] = cfg["card"]
+        if cfg.get("card_removed"):
+            c["card_removed"] = True
     if cfg.get("ram_overlays"):
         c["ram_overlays"] = [list(x) for x in cfg["ram_overlays"]]
     if cfg.get("rom_overlays"):
@@ -166,6 +174,8 @@ def rs_unpack(resp, hist):
 def run_ref(cfg, hist, pr, impl: str):
     c = dict(cfg)
     c["rom_byte"] = ROM_BYTE
+    if c.get("card_removed"):
+        c["card"] = 0                          # a card that was taken out again: the slot is absent
     if impl == "python":
         c["mirror"] = False
         c["readonly"] = []                     # PCE500Memory has no read-only ranges besides overlays
@@ -208,6 +218,8 @@ def region(a: int) -> str:
 def ref_for(cfg, impl: str) -> RefBus:
     c = dict(cfg)
     c["rom_byte"] = ROM_BYTE
+    if c.get("card_removed"):
+        c["card"] = 0
     if impl == "python":
         c["mirror"] = False
         c["readonly"] = []
@@ -232,6 +244,8 @@ def judge(impl, cfg, hist, outs, probe_vals, pr, vb: VB, pre_probe: Optional[Lis
         cfgtag += "+card-readonly"
     if cfg.get("underlay"):
         cfgtag += "+underlay"
+    if cfg.get("card_removed"):
+        cfgtag += "+card-removed"
     if pre_probe is None:
         ref_outs, ref_probe, r = run_ref(cfg, hist, pr, impl)
         for i, (a, b) in enumerate(zip(outs, ref_outs)):
